@@ -30,7 +30,8 @@ def attempt(f, *a, **k):
 # ------------------------------------------------------------------------------------------------
 # specs
 
-UNI_DATA = [('normal', 0.0, 1.0, 30), ('gamma2', 5.0, 1e-3, 30), ('const', 3.0, 20), ('normal', 0.0, 1e-9, 30),
+UNI_DATA = [('normal', 0.0, 1.0, 30), ('gamma2', 5.0, 1e-3, 30), ('const', 3.0, 20), ('const', 0.1, 20), ('const', 0.7, 6),
+            ('normal', 0.0, 1e-9, 30),
             ('beta_u', -1e3, 1e3, 40)]
 UNI_MODELS_QUICK = [('beta',), ('gamma',), ('gaussian',), ('loglaplace',), ('student_t',), ('uniform',), ('truncated',),
                     ('truncated', 'bounds'), ('kde', None, None, False), ('kde', 'silverman', None, False),
